@@ -209,6 +209,17 @@ def evalOf (C : Cfg) : Eval :=
     -- the right map checked against the left one (`validation_run` does both; not part of `fullRunR`)
     ccR := ccOf C.V C.CP' x.L.rows x.L.cols chR.filtered chL.filtered }
 
+/-- every left flag word of the staged evaluation against the model's memoised run `extRunMemo` on the tail of
+    `fullRunR` (proved equal to `fullRunR`: `extRunMemo_eq`, `extRunR_left_flag`) -/
+def memoOK (C : Cfg) (E : Eval) : Bool :=
+  let x := C.x
+  let F : FillCfg := { meth := none, v := { guard := true, op := .or }, off := 0 }
+  match extRunMemo C.K C.K' (tailOf C.K) (tailOf C.K') C.V C.CP C.CP' F x E.R E.R', E.ccL with
+  | some (l, _), some o =>
+    (List.range x.L.rows).all fun r => (List.range x.L.cols).all fun c => l.flag r c == (C07.outPix o r c).flag
+  | none, none => true
+  | _, _ => false
+
 def spotsOfJson (j : Json) : Except String (List (Nat × Nat)) := do
   let l ← listOfJson (listOfJson natOfJson) (fieldD j "spots" (Json.arr #[]))
   l.mapM fun p => match p with
@@ -227,7 +238,7 @@ def runOp (j : Json) : Except String Json := do
     ("gmin", intToJson (gminOf x)), ("gmax", intToJson (gmaxOf x)),
     ("disps", listToJson ratToJson C.K.disps), ("disps_right", listToJson ratToJson C.K'.disps),
     ("wf", Json.bool (wfShape x && wfShape xs)),
-    ("spot_ok", Json.bool (spotOK C E.R E.R' E.chL E.ccL spots)), ("spots", natToJson spots.length),
+    ("spot_ok", Json.bool (spotOK C E.R E.R' E.chL E.ccL spots && memoOK C E)), ("spots", natToJson spots.length),
     ("left", mkObj (chainToJson C.K x E.R E.chL ++ [("cc", ccToJson rows cols E.ccL)])),
     ("right", mkObj (chainToJson C.K' xs E.R' E.chR ++ [("cc", ccToJson rows cols E.ccR)]))]
 
@@ -322,6 +333,30 @@ def ambToJson (etas : List Rat) (x : MC.Input) (R : Nat → Nat → List Val) : 
               | some q => ratToJson q | none => Json.null) v)]
   | _, _, _ => Json.null
 
+def pairGridToJson (g : Grid (Val × Val)) : Json × Json :=
+  (gridToJson (fun p => valToJson p.1) g, gridToJson (fun p => valToJson p.2) g)
+
+def optRat : Option Rat → Json
+  | some q => ratToJson q
+  | none => Json.null
+
+def riskToJson (etas : List Rat) (x : MC.Input) (R : Nat → Nat → List Val) : Json :=
+  let v := volumeOf x.L.rows x.L.cols R
+  match riskOf etas x R, Confidence.globalMin v, Confidence.globalMax v with
+  | some g, some mn, some mx =>
+    let (a, b) := pairGridToJson g
+    mkObj [("max", a), ("min", b), ("margin", gridToJson (fun cv => optRat (Driver.C12.ambMargin mn mx etas cv)) v)]
+  | _, _, _ => Json.null
+
+def boundsToJson (thr : Rat) (disps : List Rat) (x : MC.Input) (R : Nat → Nat → List Val) : Json :=
+  let v := volumeOf x.L.rows x.L.cols R
+  match boundsOf thr disps x R, Confidence.globalMin v, Confidence.globalMax v with
+  | some g, some mn, some mx =>
+    let (a, b) := pairGridToJson g
+    mkObj [("inf", a), ("sup", b),
+           ("margin", gridToJson (fun cv => optRat (Driver.C12.boundsMargin mn mx (Confidence.typeFactor false) thr cv)) v)]
+  | _, _, _ => Json.null
+
 def xrunOp (j : Json) : Except String Json := do
   let C ← cfgOfJson j
   let spots ← spotsOfJson j
@@ -339,6 +374,8 @@ def xrunOp (j : Json) : Except String Json := do
     | v => throw s!"unknown filling {v.compress}"
   let F : FillCfg := { meth, v := Driver.C14.variantOfJson (fieldD j "fill_cfg" (Json.mkObj [])), off := C.CP.offset }
   let etas ← listOfJson ratOfJson (fieldD j "etas" (Json.arr #[]))
+  let confMethod ← strOfJson (fieldD j "conf_method" (Json.str "ambiguity"))
+  let confThr ← ratOfJson (fieldD j "conf_threshold" (Json.str "9/10"))
   let R := look (rowsTab C.K C.G x) []
   let R' := look (rowsTab C.K' C.G xs) []
   let start (K : RunCfg) (y : MC.Input) (Q : Nat → Nat → List Val) : Maps :=
@@ -349,13 +386,14 @@ def xrunOp (j : Json) : Except String Json := do
   let stR := tailStaged C.K' xs R' tail' (some m0')
   let A := stL.getLastD (some m0)
   let B := stR.getLastD (some m0')
-  let (ccJ, fillJ, staged) := match A, B with
-    | some a, some b =>
+  -- the final products: the model's memoised run `extRunMemo` (= `extRunR`: `extRunMemo_eq`), read once per pixel
+  let memoRun := (extRunMemo C.K C.K' tail tail' C.V C.CP C.CP' F x R R').map fun (l, r) =>
+    (Driver.C14.materialise l, Driver.C14.materialise r)
+  let (ccJ, fillJ, staged) := match A, B, memoRun with
+    | some a, some b, some (fl, fr) =>
       let lr := CrossCheck.validationRun C.V C.CP C.CP' (leftDataset rows cols a) (leftDataset rows cols b)
-      let fl := fillStaged F (Driver.C14.materialise (dmapOfOut rows cols lr.1))
-      let fr := fillStaged F (Driver.C14.materialise (dmapOfOut rows cols lr.2))
       ((outToJson rows cols lr.1, outToJson rows cols lr.2), (dmapToJson fl, dmapToJson fr), some (fl, fr))
-    | _, _ => ((Json.str "raises", Json.str "raises"), (Json.str "raises", Json.str "raises"), none)
+    | _, _, _ => ((Json.str "raises", Json.str "raises"), (Json.str "raises", Json.str "raises"), none)
   -- the literal definition at the sampled pixels
   let lit := extRunR C.K C.K' tail tail' C.V C.CP C.CP' F x R R'
   let spotOk := match lit, staged with
@@ -371,17 +409,55 @@ def xrunOp (j : Json) : Except String Json := do
            ("wta", valGrid rows cols m.disp),
            ("tail", Json.arr (st.map (mapsToJson rows cols)).toArray),
            ("cc", cc), ("fill", fill),
-           ("amb", if etas.isEmpty then Json.null else ambToJson etas y Q)]
+           ("amb", if etas.isEmpty || confMethod != "ambiguity" then Json.null else ambToJson etas y Q),
+           ("risk", if etas.isEmpty || confMethod != "risk" then Json.null else riskToJson etas y Q),
+           ("bounds", if confMethod != "interval_bounds" then Json.null else boundsToJson confThr K.disps y Q)]
   return mkObj [
     ("gmin", intToJson (gminOf x)), ("gmax", intToJson (gmaxOf x)),
     ("spot_ok", Json.bool spotOk), ("spots", natToJson spots.length),
     ("left", side C.K x R m0 stL ccJ.1 fillJ.1), ("right", side C.K' xs R' m0' stR ccJ.2 fillJ.2)]
+
+/-! ### two scales -/
+
+/-- `{"coarse": <C02 input>, "fine": <C02 input, any dmin/dmax>, "invalid", "invalid_mask", "split_wta", "tail",
+     "marge", "f", "user_min", "user_max"}` -/
+def twoScaleOp (j : Json) : Except String Json := do
+  let xc ← field j "coarse" >>= Driver.C02.inputOfJson
+  let xf ← field j "fine" >>= Driver.C02.inputOfJson
+  if xc.meas == .zncc then throw "zncc: the composed run needs exact costs"
+  let invalid ← field j "invalid" >>= valOfJson
+  let invalidMask ← field j "invalid_mask" >>= natOfJson
+  let sW ← field j "split_wta" >>= Driver.C03.splitOfJson
+  let marge ← field j "marge" >>= natOfJson
+  let f ← field j "f" >>= natOfJson
+  let umin ← field j "user_min" >>= ratOfJson
+  let umax ← field j "user_max" >>= ratOfJson
+  let tailJ ← listOfJson pure (fieldD j "tail" (Json.arr #[]))
+  -- the tail steps do not depend on the input here (median filters only)
+  let tl ← tailJ.mapM (tailStepOfJson xc)
+  let (_, rp) ← refineOfJson Json.null xc.sp 0 0
+  let mkK (x : MC.Input) : RunCfg :=
+    { ev := numOnly, isMax := false, disps := dispsOf x, invalid, refine := rp, invalidMask, fs := 0,
+      doRefine := false, doMedian := false, sW, sM := sW }
+  match twoScaleRun mkK (fun _ => tl) marge f umin umax xc xf with
+  | none => return Json.str "raises"
+  | some (mc, g, xf', mf) =>
+    let side (x : MC.Input) (m : Option Maps) : Json :=
+      mkObj [("gmin", intToJson (gminOf x)), ("gmax", intToJson (gmaxOf x)),
+             ("flags", natGrid x.L.rows x.L.cols (C04C02.composedMask x)),
+             ("mc", gridToJson (listToJson valToJson) (Blocks.tabulate x.L.rows x.L.cols (costRow (mkK x) x))),
+             ("wta", valGrid x.L.rows x.L.cols (wtaMapR (mkK x) x (costRow (mkK x) x))),
+             ("final", mapsToJson x.L.rows x.L.cols m)]
+    return mkObj [("coarse", side xc (some mc)),
+                  ("grid_min", gridToJson valToJson g.1), ("grid_max", gridToJson valToJson g.2),
+                  ("fine", side xf' mf)]
 
 def handle (op : String) (j : Json) : Except String Json :=
   match op with
   | "C13.run" => runOp j
   | "C13.hyps" => hypsOp j
   | "C13.xrun" => xrunOp j
+  | "C13.twoscale" => twoScaleOp j
   | _ => throw s!"unknown op {op}"
 
 end Pandora.Driver.C13
